@@ -89,17 +89,28 @@ Accepts(cfg, open) == RefuseReasons(cfg, open) = {}
 (* RFC 4271 4.2: "the smaller of its configured Hold Time and the Hold Time received" *)
 Hold(cfg, open) == Min(LHold(cfg), open.hold)
 
-(* Interval between KEEPALIVEs the session may run with (none at all when Hold = 0, RFC 4271 4.4).
-   Property text: "a third of it unless the configured one applies".  The configured interval
-   was chosen for the configured hold time: it applies when that hold time is the negotiated one;
-   when the peer forced a smaller hold time it may only be used if it is not larger than a third
-   of the negotiated value.  Where both readings are defensible both are allowed (one-sided).
-   RFC 4271 4.4: never more often than once per second. *)
+(* Interval between KEEPALIVEs the session runs with (none at all when Hold = 0, RFC 4271 4.4).
+   Property text: "a third of it unless the configured one applies".
+   RFC 4271 10: KeepaliveTime is a configurable value, "a third of the HoldTime" the suggestion;
+   4.4: never more often than once per second.  Configuration model (oc.TimersConfig):
+   keepalive-interval = "Time interval in seconds between transmission of keepalive messages to
+   the neighbor. Typically set to 1/3 the hold-time"; not configured = hold-time / 3.
+     - The configured hold time is the negotiated one (the peer offered the same or more): the
+       operator's pair (hold-time, keepalive-interval) is in force as configured, so the
+       configured interval APPLIES - whether it is shorter or longer than a third.  Only a
+       configured interval that is not below the hold time (the session could not live with it)
+       is left open: a third or the configured value.
+     - The peer forced a smaller hold time: a third of the negotiated value; the configured
+       interval may still be used when it is not larger than that (one-sided: the documents do
+       not say).  *)
 KeepaliveAllowed(cfg, open) ==
   LET h == Hold(cfg, open)
       third == Max(1, h \div 3)
   IN IF h = 0 THEN {}
-     ELSE IF h = LHold(cfg) THEN {third, Max(1, LKa(cfg))}
+     ELSE IF h = LHold(cfg)
+          THEN IF cfg.ka = 0 THEN {third}
+               ELSE IF cfg.ka < h THEN {cfg.ka}
+               ELSE {third, cfg.ka}
      ELSE {third} \cup (IF LKa(cfg) >= 1 /\ LKa(cfg) <= h \div 3 THEN {LKa(cfg)} ELSE {})
 
 (* RFC 4760 8 / RFC 5492: a speaker that sends no Multiprotocol capability exchanges IPv4 unicast
